@@ -96,7 +96,7 @@ def run(ctx):
                     for bp in ev[4]:
                         if bp[0] in ("fall", "continue"):
                             visit(bp[2], lctx + [(ev, bp)], top_index if top_index is not None else i)
-                elif ev[0] == "mutcall" and ev[2] in maps and ev[3] == "update" and len(ev[4]) == 1 and isinstance(ev[4][0], tuple) and len(ev[4][0]) == 5 and ev[4][0][0] == "comp" and ev[4][0][1] == "dict" and not eng.__dict__.get("_comp_store", {}).get(("ifs", ev[4][0][4])):
+                elif ev[0] == "mutcall" and ev[2] in maps and ev[3] == "update" and len(ev[4]) == 1 and isinstance(ev[4][0], tuple) and len(ev[4][0]) == 5 and ev[4][0][0] == "comp" and ev[4][0][1] in ("dict", "gen", "list") and not eng.__dict__.get("_comp_store", {}).get(("ifs", ev[4][0][4])):
                     # M.update({name: entry for name, md in section.items()}): one insertion per
                     # element of the comprehension's loop
                     comp = ev[4][0]
